@@ -254,6 +254,7 @@ def finish(prop, tier, seed, level, res, rule, distinct, evaluations, assumption
     for ksig, (k, n) in sorted(known_hits.items()):
         print(f"KNOWN-FINDING: property={prop} {k['what']} [signature {ksig}; seen {n}x this run]")
     replay_dir = os.path.join(VERIF, "replays", prop)
+    shutil.rmtree(replay_dir, ignore_errors=True)  # witnesses of earlier runs are stale
     for sig in sorted(new_sigs):
         v = by_sig[sig][0]
         os.makedirs(replay_dir, exist_ok=True)
@@ -311,7 +312,7 @@ def workdir(prop, tier):
 def cleanup(d):
     if os.environ.get("VERIF_KEEP_WORK"):
         return
-    shutil.rmtree(d, ignore_errors=True)
+    shutil.rmtree(d, ignore_errors=True)  # only the per-run directory; work/tools-target is a build cache
 
 
 def main(argv):
